@@ -2,6 +2,7 @@ INIT Init
 NEXT Next
 CONSTANTS
   NPaths = 3
+  Stale = {1, 2}
   Ks = {2}
   MHs = {3}
   PEs = {3}
